@@ -9,7 +9,8 @@ extraction report. Nothing here looks at line numbers of /repo: anchors are impl
 Template directives (all start with //@ at the beginning of a line):
   //@unit NAME                      //@serves C06 C13 ...
   //@fn FILE :: IMPL_REGEX :: FN_NAME [:: as NEWNAME]     extract a whole fn item
-  //@range FILE :: IMPL_REGEX :: FN_NAME :: /START/ :: /END/   extract a statement range (emitted in place)
+  //@range FILE :: IMPL_REGEX :: FN_NAME :: /START/ :: /END/ [:: exclusive]   extract a statement range (emitted in place;
+                                    END line included unless `exclusive`)
      inside either block:
        //@sig <text>                replacement for the signature (up to the body's '{'); several lines allowed
        //@subst /REGEX/ => REPL     unit-specific token rewrite (R3 generic instantiation, receiver renames); recorded
@@ -243,7 +244,8 @@ def process_block(kind, header, dirs, report):
         fname = newname or name
     else:
         impl_rx, name, srx, erx = parts[1], parts[2], parse_rx(parts[3]), parse_rx(parts[4])
-        a, b = find_range(src, m, impl_rx, name, srx, erx)
+        excl = len(parts) > 5 and parts[5] == 'exclusive'
+        a, b = find_range(src, m, impl_rx, name, srx, erx, excl)
         entry.update(anchor=f'{impl_rx} :: fn {name} :: /{srx}/../{erx}/', src_lines=[line_of(src, a), line_of(src, b)])
         body = src[a:b]
         entry['sha256'] = hashlib.sha256(body.encode()).hexdigest()[:16]
